@@ -72,8 +72,17 @@ def _instance_check_first(ctx):
         ctx.undecided('ORDER', construct, 'no `unique` bookkeeping found')
         return
     # ... and the element is REGISTERED (unique.add) unconditionally before any path can `continue`
+    elem_ = norm(loops[0].target).split(', ')[-1].strip('()')
     reg = [i for i, st in enumerate(body) if isinstance(st, ast.Expr) and isinstance(st.value, ast.Call)
-           and norm(st.value.func) == 'unique.add' and st.value.args and norm(st.value.args[0]) == norm(loops[0].target).split(', ')[-1].strip('()')]
+           and norm(st.value.func) == 'unique.add' and st.value.args and norm(st.value.args[0]) == elem_]
+    # `if element in unique: ... else: unique.add(element)` registers on every path as well
+    for i, st in enumerate(body):
+        if isinstance(st, ast.If) and any(t_ == f"{elem_} in unique" and p_ for _e, t_, p_ in literals([(st.test, True)])) \
+                and any(isinstance(x, ast.Expr) and isinstance(x.value, ast.Call) and norm(x.value.func) == 'unique.add'
+                        and x.value.args and norm(x.value.args[0]) == elem_ for x in st.orelse) \
+                and not any(isinstance(x, (ast.Continue, ast.Break)) for y in st.orelse for x in ast.walk(y)):
+            reg.append(i)
+    reg.sort()
     def _unregistered_continue(st):
         # a `continue` taken only when the element is already in `unique` loses nothing
         for x in ast.walk(st):
@@ -288,11 +297,23 @@ def _group(ctx):
     else:
         raise AnalysisError(f"_group: unrecognised key expression `{norm(v)}`")
     body = [norm(s) for s in loop.body]
-    ok = 'dct.setdefault(val, cls())' in body and 'dct[val].append(t)' in body \
-        and not any(isinstance(s, (ast.If, ast.Continue, ast.Break, ast.Try)) for s in loop.body)
-    ctx.check(ok, 'SINK', '_group: every element is appended exactly once, unconditionally, to its group',
-              detail_bad=f"loop body is {body}", key="SINK|_group|append")
-    ctx.shape(body.count('dct[val].append(t)') == 1, 'SINK', '_group: one append per element')
+    # every element goes into its group exactly once: one `.append(t)` as a top-level statement of
+    # the loop body (on a group taken from dct), none under a condition, no continue / break
+    elem = norm(loop.target)
+    apps_all = [c for c in ast.walk(loop) if isinstance(c, ast.Call) and isinstance(c.func, ast.Attribute)
+                and c.func.attr in ('append', 'extend', 'insert') and any(norm(a) == elem for a in c.args)]
+    apps_top = [st for st in loop.body if isinstance(st, ast.Expr) and isinstance(st.value, ast.Call) and st.value in apps_all]
+    skips = [x for x in ast.walk(loop) if isinstance(x, (ast.Continue, ast.Break))]
+    from_dct = False
+    if len(apps_top) == 1:
+        rcv = apps_top[0].value.func.value
+        from_dct = 'dct' in norm(rcv) or (isinstance(rcv, ast.Name) and any(
+            isinstance(a, ast.Assign) and any(isinstance(t_, ast.Name) and t_.id == rcv.id for t_ in a.targets) and 'dct' in norm(a.value)
+            for a in ast.walk(loop)))
+    ok = len(apps_top) == 1 and len(apps_all) == 1 and not skips and from_dct
+    bad = bool(skips) or len(apps_all) != 1 or (len(apps_all) == 1 and not apps_top)
+    ctx.tri(ok, bad, 'SINK', '_group: every element is appended exactly once, unconditionally, to its group',
+            detail_bad=f"loop body is {body}", key="SINK|_group|append")
     ug = ctx.repo.func('_TRSTractList.unpack_group.unpack')
     t = ' '.join(norm(s) for s in walk_local(ug.node) if isinstance(s, ast.stmt))
     ctx.shape('for v_ in dct.values()' in t and 'unpack(v_)' in t and 'tl.extend(v_)' in t, 'SINK',
